@@ -187,6 +187,19 @@ theorem pyIntOfString_renderInt_of_lt (n : Int) (h : n.natAbs < 10 ^ maxStrDigit
   rw [this] at h ⊢
   exact natDigits_length_le 4299 _ h
 
+theorem small_lt_limit (n : Nat) (h : n < 1000) : n < 10 ^ maxStrDigits :=
+  Nat.lt_of_lt_of_le h (Nat.pow_le_pow_right (n := 10) (by omega) (by decide : 3 ≤ maxStrDigits))
+
+theorem natDigits_one (n : Nat) (h : n < 10) : natDigits n = [48 + n] := by
+  unfold natDigits; simp [h]
+
+theorem natDigits_two (n : Nat) (h1 : 10 ≤ n) (h2 : n < 100) : natDigits n = [48 + n / 10, 48 + n % 10] := by
+  unfold natDigits
+  have : ¬ n < 10 := by omega
+  simp only [this, if_false]
+  rw [natDigits_one (n / 10) (by omega)]
+  rfl
+
 theorem intLike_renderInt (n : Int) (h : n.natAbs < 10 ^ maxStrDigits) : intLike (renderInt n) = true := by
   simp [intLike, pyIntOfString_renderInt_of_lt n h]
 
